@@ -214,7 +214,8 @@ impl Parser {
                         Lexem::String(s) | Lexem::RawString(s) => match mode {
                             RootParsingMode::From | RootParsingMode::Comma => {
                                 path = s.to_string();
-                                if path.starts_with("~") {
+                                // `~` alone or `~/...` is the home directory; `~bak` is a name
+                                if path == "~" || path.starts_with("~/") || path.starts_with("~\\") {
                                     if let Some(ud) = UserDirs::new() {
                                         let mut pb = PathBuf::from(path.clone());
                                         pb = pb.components().skip(1).collect();
